@@ -32,7 +32,11 @@ def bi_len(ex, args, kw):
         return v.length_of(ex)
     if isinstance(v, Record) and v.cls and ex.repo.classdef(v.cls) and ex.repo.method(v.cls, "__len__"):
         return ex.call_qual(f"{v.cls}.__len__", [], {}, self_obj=v)
-    raise SymRaise("TypeError", f"object of type {typetag(v)} has no len()")
+    if isinstance(v, (int, float, bool)) or v is None or is_z3(v) or isinstance(v, Record):
+        raise SymRaise("TypeError", f"object of type {typetag(v)} has no len()")
+    # a value class of the engine or of a contract (a header text by contract, an opaque object ...) whose length is not modelled:
+    # a gap of the model, not a TypeError of the program
+    raise Unsupported(f"len() of a {typetag(v)} (not modelled)")
 
 
 @builtin("range")
